@@ -1131,6 +1131,10 @@ func (g *Gen) next(e *Exec) Call {
 	case "LoadLegal":
 		c.Dst = g.slot()
 		c.As = g.atomSubset()
+		if spreadKeys >= 1000 && len(g.gens) > 0 && r.Intn(2) == 0 {
+			// exactly one generator: its chunk count is the one the spread was built for (1024, 2048, ...)
+			c.As = append([]int(nil), g.gens[r.Intn(len(g.gens))]...)
+		}
 		n := Num{}
 		for _, a := range c.As {
 			n = n.add(g.u.atom(a).W)
